@@ -246,6 +246,17 @@ def run(ctx, rep):
                            derivation=o.derivation)
         else:
             rep.violated(k, "automatically completed components re-normalise to themselves", construct=o.construct, why=o.why)
+    # Y5' every component line of a saved file is read back as a component (the reader appends one per line and takes
+    # none away, whatever its comment): C05/P1 re-stated
+    p1 = [o for o in sub.obligations if o.key.startswith("C05/P1/")]
+    if len(p1) < 3:
+        rep.violated("C18/Y5/read/anchor", "the reader of components is analysable", why="%d C05/P1 obligations" % len(p1))
+    for o in p1:
+        k = "C18/Y5/read/" + o.key[len("C05/P1/"):]
+        if o.status == "discharged":
+            rep.discharged(k, "every component line written is read back: " + o.clause, nontrivial=False)
+        else:
+            rep.violated(k, "every component line of a saved file is read back as a component", construct=o.construct, why=o.why)
     # Y6 the one field the text format does not carry, EAux.service, is re-derived on reading: that is only a
     # round trip if the re-derivation treats re-read auxiliaries like declared ones (C06/A0: every Aux of the
     # system takes part whatever its comment, values or service)
